@@ -440,3 +440,11 @@ Definition image_list_item (img : image) (in_ax out_ax : option nat) (dropout : 
 Definition list_item_agrees (img : image) (in_ax out_ax : option nat) (dropout : bool) (k : nat)
            (dpair : option nat * option nat) (tinyz : Z) (expected : ires image) : bool :=
   ires_eqb (image_list_item img in_ax out_ax dropout k dpair tinyz) expected.
+
+(* item k of iter_axis(img, axis, asarray=True): the data (only) of the k-th image item *)
+Definition array_item_agrees (img : image) (axis : axid) (ornts : list (option nat)) (k : nat)
+           (shape : list nat) (data : list Z) : bool :=
+  match iter_axis_item img axis ornts k with
+  | IOk r => natlist_eqb (ishape r) shape && zlist_eqb (idata r) data
+  | IErr _ => false
+  end.
